@@ -41,8 +41,9 @@ def uninferable_type_args(program):
     """inference-mode obligation that is certain in Kotlin and Scala: the type arguments of
     `new C<..>(..)` may be omitted only if every type parameter of C either occurs in the
     type of a constructor parameter or can come from an expected type.  A constructor call
-    used as the RECEIVER of a member access, or initialising a variable whose own type is
-    omitted, has no expected type.  Returns [(where, class, type parameter)]."""
+    used as the RECEIVER of a member access, initialising a variable whose own type is
+    omitted, or being the expression body of a function whose return type is omitted, has no
+    expected type.  Returns [(where, class, type parameter)]."""
     from src.ir import ast, types as tp
     from sim import walk
     decls = {d.name: d for d in program.context._context.get(('global',), {}).get(
@@ -71,6 +72,11 @@ def uninferable_type_args(program):
         elif isinstance(node, ast.VariableDeclaration) and node.var_type is None and \
                 isinstance(node.expr, ast.New):
             check(node.expr, 'initialiser-of-untyped-variable')
+        elif isinstance(node, ast.FunctionDeclaration) and node.ret_type is None and \
+                isinstance(node.body, ast.New):
+            # expression-bodied function whose declared return type is omitted (possibly by
+            # an EARLIER erasure round): its body has no expected type either
+            check(node.body, 'body-of-untyped-function')
     return out
 
 
@@ -137,7 +143,7 @@ class C03(PipelineCheck):
     ROUNDS = (1, 1, 2, 3)
     MAX_DEPTH = (1, 6)
     TRANSLATE = True
-    tiers = {'quick': {'runs': 260, 'wall_s': 70, 'run_timeout_s': 300},
+    tiers = {'quick': {'runs': 600, 'wall_s': 70, 'run_timeout_s': 300},
              'thorough': {'runs': 4000, 'wall_s': 1100, 'run_timeout_s': 900}}
 
     def make_config(self, run_seed):
